@@ -339,6 +339,17 @@ func c15Run(t *testing.T, run *Run, sc c15Scenario) {
 	to.BufferRequests, to.BufferResponses = sc.BufReq, sc.BufResp
 	so2 := so
 	so2.Hosts = []string{"refused.example"}
+	if sc.Idx%2 == 0 {
+		// the service was first deployed onto the same target with another target timeout (and
+		// the opposite buffering): what counts is the configuration of the deploy in force
+		first := to
+		first.ResponseTimeout = 45 * time.Second
+		first.BufferRequests, first.BufferResponses = !to.BufferRequests, !to.BufferResponses
+		if c := w.Deploy("svc", []string{"flt:80"}, so, first, 5*time.Second, time.Second); c.Err != "" {
+			run.Inconclusive("setup: %s", c.Err)
+			return
+		}
+	}
 	if c := w.Deploy("svc", []string{"flt:80"}, so, to, 5*time.Second, time.Second); c.Err != "" {
 		run.Inconclusive("setup: %s", c.Err)
 		return
